@@ -176,7 +176,12 @@ def equations():
            ('FL4', '{ o?: $T } & Inner<$T>'), ('FE1', '{ k: boolean } & ET<$T>'),
            ('PF1', '{ id: boolean } & En1<$T> & Inner<$T>'), ('PF2', 'En2<$T> & Inner<$T>'), ('PF3', '{ id: boolean } & Inner<$T> & En1<$T>'),
            ('PF4', '{ e: En1<$T>, s: Inner<$T>, n: En2<$T> }'), ('PF5', '{ id: boolean } & Tg1<$T>'), ('PF6', 'Tg1<$T>'),
-           ('IT1', 'IT2<$T>'), ('IA1', 'IA2<$T>'), ('IX1', 'IX2<$T>'), ('IU1', 'IU2<$T>')]
+           ('IT1', 'IT2<$T>'), ('IA1', 'IA2<$T>'), ('IX1', 'IX2<$T>'), ('IU1', 'IU2<$T>'),
+           ('S1', '[$T, Inner<$T>]'), ('S2', '{ a?: $T | null, b?: Array<$T>, c: $T | null }'), ('S3', '{ a?: $T | null, b: Array<$T> }'),
+           ('S4', '{ "k": "A", v: $T } | $T | { "k": "D" } | { "k": "E" }'),
+           ('S9', '{ a: $T | null, b?: $T, c: T | null, z: $T }'),
+           ('S11', '{ "t": "foo_bar", "c": $T } | { "t": "baz_qux", "c": { qu_ux: $T } } | { "t": "X", "c": [$T, $T] }'),
+           ('S12', '$T | { v: $T } | null | [$T, $T]'), ('DD1', 'DN1<$T>'), ('DD2', 'DN2<$T>'), ('DD3', 'DN3<$T>'), ('DD4', 'DN4<$T>')]
     for lhs, rhs in SEM:
         if lhs not in G['corpus']:
             continue
